@@ -50,7 +50,8 @@ impl Session {
                 match req.as_mut().read_following(&mut self.connection, carried).await {
                     Ok(Some(following)) => {
                         unread = following;
-                        let close = matches!(req.headers.Connection(), Some("close" | "Close"));
+                        /* connection options are case-insensitive */
+                        let close = req.headers.Connection().is_some_and(|c| c.eq_ignore_ascii_case("close"));
                         #[cfg(ohkami_verif)] crate::__verif::emit("parsed", close as usize, 0);
 
                         let res = match catch_unwind(AssertUnwindSafe({
